@@ -218,12 +218,27 @@ def is_classifier(g):
     return False
 
 
-def view(prog, root, pick=None, depth=MAX_DEPTH, accessors=False, classifiers=False, closures=False):
+def is_small_leaf(g):
+    """A small, loop-free, hand-written function that calls nothing in the
+    crate (`Params::arity(&self) -> Arity`, `collects_at(&self, i) -> bool`):
+    a decision or a measure factored out of its caller, inlined on request
+    (`leaves=True`) so that guard relations can be read across it."""
+    if g is None or not g.full or g.is_closure or g.generated or g.from_expansion or g.impl_trait is not None:
+        return False
+    if len(g.blocks) > 24 or g.natural_loops() or not (1 <= g.arg_count <= 3):
+        return False
+    if any(c.is_ptr or (c.res in g.prog.fns and g.prog.fns[c.res].full) for c in g.calls()):
+        return False
+    return True
+
+
+def view(prog, root, pick=None, depth=MAX_DEPTH, accessors=False, classifiers=False, closures=False,
+         leaves=False):
     """Synthetic Fn: `root` with its private helpers inlined.  `pick(call)`
     may veto individual call sites; with `accessors`, small kind-test
     accessors (`is_accessor`) are inlined as well, wherever they are called.
     Returns `root` itself when nothing was inlined."""
-    key = (root.path, depth, getattr(pick, "__name__", None), accessors, classifiers, closures)
+    key = (root.path, depth, getattr(pick, "__name__", None), accessors, classifiers, closures, leaves)
     memo = getattr(prog, "_views", None)
     if memo is None:
         memo = prog._views = {}
@@ -236,6 +251,10 @@ def view(prog, root, pick=None, depth=MAX_DEPTH, accessors=False, classifiers=Fa
     if classifiers:
         always = {p for p, g in prog.fns.items() if p != root.path and is_classifier(g)}
         helpers |= always
+    if leaves:
+        lv = {p for p, g in prog.fns.items() if p != root.path and is_small_leaf(g)}
+        always |= lv
+        helpers |= lv
     if closures:
         helpers |= {g.path for g in prog.fns.values() if g.full and g.is_closure
                     and (g.root_fn().path == root.path or g.root_fn().path in helpers)}
